@@ -129,6 +129,12 @@ def rule_cli(repo):
         # the collaborators are scripted objects: which variables hold them, and whether intermediate results are named, does not matter
         def on_call(self, text, callee, args, kwargs, node, frame):
             it = self
+            if text in ('Decoder', 'Encoder'):
+                # constructor arguments by parameter name (positional ones through the signature of __init__)
+                params = it.repo.own_method(text, '__init__').params[1:]
+                cfg = dict(zip(params, args))
+                cfg.update(kwargs)
+                it.event('new', text, dict((k, repr(v)) for k, v in cfg.items()))
             if text == 'Decoder':
                 def process(interp, a, kw, node, frame):
                     it.event('decode', repr(a[0]) if a else None, dict((k, repr(v)) for k, v in kw.items()))
@@ -154,8 +160,8 @@ def rule_cli(repo):
             return self.NOT_HANDLED
     for text_idx, want in (('0', [0]), ('3,1', [3, 1]), ('0, 0,2', [0, 0, 2]), (' 4 ', [4])):
         it = I(repo, None)
-        ns = Obj('Namespace', {'subset_indices': text_idx, 'filename': 'in', 'output_filename': 'out', 'definitions_directory': None, 'tables_root_directory': None,
-                               'compiled_template_cache_max': None, 'ignore_value_expectation': False})
+        ns = Obj('Namespace', {'subset_indices': text_idx, 'filename': 'in', 'output_filename': 'out', 'definitions_directory': Sym('DEFINITIONS_DIR'),
+                               'tables_root_directory': Sym('TABLES_ROOT_DIR'), 'compiled_template_cache_max': Sym('CACHE_MAX'), 'ignore_value_expectation': False})
         res = it.run_function(fi, lambda: {'ns': ns})
         rr.instance('command_subset with indices %r' % text_idx)
         for r in res:
@@ -165,6 +171,14 @@ def rule_cli(repo):
             if not r.ok or sub != [want] or enc != ['DATA'] or wr != ['BYTES_OUT']:
                 rr.fail('commands.command_subset', fi.where, 'indices %r: subset%s, encode%s, write%s (%s); expected subset(%s) -> encode(result) -> write(serialized_bytes)' % (
                     text_idx, sub, enc, wr, r.describe(), want))
+            # the message is re-encoded with the tables and section layouts it was decoded with
+            new = dict((e[1], e[2]) for e in r.events if e[0] == 'new')
+            for key, given in (('tables_root_dir', 'TABLES_ROOT_DIR'), ('definitions_dir', 'DEFINITIONS_DIR')):
+                for cls in ('Decoder', 'Encoder'):
+                    if r.ok and cls in new and new[cls].get(key) != given:
+                        rr.fail('commands.command_subset:%s:%s' % (cls, key), fi.where, 'the %s of the subset command is created with %s=%s; the command line gives %s, and '
+                                'decoder and encoder must use the same tables and section layouts or the selected subsets are re-encoded with other widths' % (
+                                    cls, key, new[cls].get(key), given))
     rr.require_floor(4)
     return rr
 
